@@ -60,6 +60,20 @@ def no_ts(p):
     return "tsgap" not in repr(p) and "tsfirst" not in repr(p)
 
 
+def shift_data(p, off):
+    """the same pattern looking for data off higher"""
+    def sh(q):
+        if q[0] == "deq":
+            return ("deq", q[1] + off)
+        if q[0] == "din":
+            return ("din", [v + off for v in q[1]])
+        return tuple(sh(x) if isinstance(x, tuple) else x for x in q)
+    p = copy.deepcopy(p)
+    for b in p["blocks"]:
+        b["preds"] = [sh(q) for q in b["preds"]]
+    return p
+
+
 def gen_scenarios(ctx):
     rng = ctx.rng
     sc = []
@@ -112,6 +126,17 @@ def gen_scenarios(ctx):
             for route in ([0] * len(stream), [0, 0] + [1] * (len(stream) - 2), [0, 1] * 3, [1, 0, 0, 1, 1, 0]):
                 sc.append(dict(cfg=cfg, n=2, stream=stream, route=route[:len(stream)], crash=None))
             sc.append(dict(cfg=cfg, n=3, stream=stream, route=[0, 1, 2, 0, 1][:len(stream)], crash=(len(stream) - 1, [0])))
+    # two phenomena whose patterns have the SAME name and different blocks (names are unique within a phenomenon
+    # only): runs of either are started on one instance and continued on another
+    for sa, sb in itertools.product([s for s in shapes if len(s) == 3][:6] + [["R", "R"]], [["R", "R"], ["R", "RL", "R"], ["S", "RO", "R"]]):
+        pa = insensitive(G.pattern(1, G.assign(sa, 0, "distinct")))
+        pb = shift_data(insensitive(G.pattern(1, G.assign(sb, 0, "distinct"))), 3)
+        for mc in (0, 20):
+            cfg = dict(phen=[(1, [pa]), (2, [pb])], maxcache=mc, idbase=1000)
+            for stream in ([4, 1, 5, 2, 6, 3], [1, 4, 2, 5, 3, 6], [4, 5, 1, 6, 2, 3]):
+                for route in ([0, 0, 1, 1, 1, 1], [0, 1, 0, 1, 0, 1], [1, 1, 0, 0, 1, 0]):
+                    sc.append(dict(cfg=cfg, n=2, stream=stream, route=route, crash=None))
+                sc.append(dict(cfg=cfg, n=2, stream=stream, route=[0, 0, 1, 1, 1, 1], crash=(2, [0])))
     for _ in range(250 if ctx.quick else 6000):
         cfg = G.rand_config(rng, maxcache=rng.choice([0, 40]), maxblocks=5)
         if not no_ts(cfg):
